@@ -211,6 +211,18 @@ CLAIMED['C12'] = dict(
     technique='TLA+ index-relation model + TLC enumeration; spec->code replay with exact integer tensors',
     design_ref='3/C12')
 
+CLAIMED['C13'] = dict(
+    text=('SeqIndex.tla decides the re-indexing structure: which time indices are fed to the cell in which order (reversal inside the valid '
+          'length), where each step\'s output lands (keep_order), after how many steps the returned carry is taken, and the set of key '
+          'positions a query sees under causal / key-padding masks and their combination, with the decode cache as a state machine equal to '
+          'causal visibility (TLC-checked laws). A tracer cell (carry\' = 10*carry + x) makes these readable as digits and is compared '
+          'exactly for every (T <= 4, valid length, reverse, keep_order) through constructor flags, call-time flags, call-time time_major, '
+          'Bidirectional and nnx.RNN; real cells are checked for bit-identical outputs / carry under perturbation of padded positions and '
+          'stepwise = RNN; attention: library mask helpers = visible sets, weights = softmax over the visible set (float64, 1e-5), '
+          'masked / future positions inert (bit-identical), decode cache (with and without a user mask) = causal whole sequence, Linen = NNX.'),
+    technique='TLA+ index / visibility model + TLC enumeration; spec->code replay with a tracer cell and perturbation pairs',
+    design_ref='3/C13')
+
 NOT_YET = 'check not built yet in this round (planned, see DESIGN.md section 3); not claimed until its specification is bound to the code'
 ALL = ['C%02d' % i for i in range(1, 21)]
 
